@@ -178,6 +178,19 @@ pub fn check(s: &Scn, what: &str) -> Option<(String, String)> {
             return Some((format!("inverse lacks the originating configuration {:?}", s.q), "originating configuration among the answers".into()));
         }
     }
+    if what == "c02" && six_dof && s.limits.is_none() && regular(&s.p, &s.q) {
+        // the answer set is closed: it contains the wrist-flipped twin (J4+pi, -J5, J6-pi in MODEL angles) of each answer, and no duplicates
+        let sols = &entries[0].1;
+        let sg = |i: usize| s.p.sign_corrections[i] as f64;
+        for x in sols {
+            let mut tw = *x;
+            tw[3] = x[3] + PI * sg(3);
+            tw[4] = (-(x[4] * sg(4) - s.p.offsets[4]) + s.p.offsets[4]) * sg(4);
+            tw[5] = x[5] - PI * sg(5);
+            if !sols.iter().any(|y| same_mod(y, &tw, 1e-6)) { return Some((format!("inverse returns {:?} but not its wrist-flipped twin {:?}", x, tw), "contains the wrist-flipped twin of each answer".into())); }
+        }
+        for a in 0..sols.len() { for b in a + 1..sols.len() { if same_mod(&sols[a], &sols[b], 1e-9) { return Some((format!("inverse returns {:?} twice", sols[a]), "no duplicates".into())); } } }
+    }
     if what == "c08" {
         if let Some((f, t, _)) = &s.limits {
             let free = OPWKinematics::new(s.p);
